@@ -9,7 +9,18 @@ from .common import *  # noqa: F401,F403
 from . import common
 
 
-def _run_procs(cmds, timeout_s, env=None, cwd=None, max_par=None):
+def _limit_memory(gb):
+    import resource
+
+    def f():
+        try:
+            resource.setrlimit(resource.RLIMIT_AS, (gb << 30, gb << 30))
+        except Exception:
+            pass
+    return f
+
+
+def _run_procs(cmds, timeout_s, env=None, cwd=None, max_par=None, mem_gb=None):
     """Runs commands concurrently. Returns list of (rc, seconds, timed_out, output_tail)."""
     max_par = max_par or common.NCPU
     res = [None] * len(cmds)
@@ -18,7 +29,8 @@ def _run_procs(cmds, timeout_s, env=None, cwd=None, max_par=None):
     while pending or running:
         while pending and len(running) < max_par:
             i, c = pending.pop(0)
-            p = subprocess.Popen(c, stdout=subprocess.PIPE, stderr=subprocess.STDOUT, env=env or common.BASE_ENV, cwd=cwd or common.ROOT, text=True)
+            p = subprocess.Popen(c, stdout=subprocess.PIPE, stderr=subprocess.STDOUT, env=env or common.BASE_ENV, cwd=cwd or common.ROOT, text=True,
+                                 preexec_fn=_limit_memory(mem_gb) if mem_gb else None)
             running.append((i, p, time.time()))
         still = []
         for (i, p, t0) in running:
@@ -92,7 +104,10 @@ def leg_shards(pid, spec, leg, tier, seed, nshards_override=None):
     env.update(leg.get("env", {}))
     timeout = leg.get("timeout_s", (300, 3600))[0 if tier == "quick" else 1]
     t0 = time.time()
-    res = _run_procs(cmds, timeout, env=env, max_par=leg.get("max_par"))
+    # a runaway workload (e.g. exponential growth inside a broken library function) must not take
+    # the machine down; sanitizer builds reserve huge virtual ranges and are exempt
+    mem = None if kind in ("tsan", "asan") else 12
+    res = _run_procs(cmds, timeout, env=env, max_par=leg.get("max_par"), mem_gb=mem)
     # one retry for shards that died without a report (keeps flaky infrastructure from deciding)
     for i, r in enumerate(res):
         rc, dt, to, tail = r
@@ -100,7 +115,7 @@ def leg_shards(pid, spec, leg, tier, seed, nshards_override=None):
             L.inconclusive.append("shard %d of %s stopped by the wall-clock watchdog after %.0fs" % (i, L.name, dt))
             continue
         if rc != 0 or not os.path.exists(outs[i]):
-            r2 = _run_procs([cmds[i]], timeout, env=env)[0]
+            r2 = _run_procs([cmds[i]], timeout, env=env, mem_gb=mem)[0]
             if r2[0] != 0 or not os.path.exists(outs[i]):
                 L.crashes.append({"cmd": " ".join(shlex.quote(x) for x in cmds[i]), "rc": r2[0], "first_rc": rc, "tail": (r2[3] or tail)[-1500:]})
                 continue
